@@ -335,10 +335,8 @@ def we_case_coq(sc, res):
 
     def which(a):
         a = np.asarray(a)
-        if a.ndim == 2 and a.shape[0] == 1:
-            a = a[0]
         if a.ndim != 1:
-            return None
+            return 999          # mlab.csd wants 1-d input: no channel of the model matches
         for i, r in enumerate(rows):
             if r.shape == a.shape and np.array_equal(r, a):
                 return i
@@ -361,13 +359,13 @@ def we_case_coq(sc, res):
         llit(calls), natlist(out.shape), crows(out))
 
 
-def ad_case_coq(call):
+def ad_case_coq(call, replay2=False):
     w, nu, yk, eig, sides, passes = call
     w = np.asarray(w, dtype=float)
     if w.ndim != 2:
         return None
-    return "(mk_ad %s %s %s %s %s %s)" % (blit(sides == "onesided"), crows(yk), frow(eig), frow(np.sqrt(eig)),
-                                          nat(passes), frows(w))
+    return "(mk_ad %s %s %s %s %s %s %s)" % (blit(sides == "onesided"), crows(yk), frow(eig), frow(np.sqrt(eig)),
+                                             nat(passes), blit(replay2), frows(w))
 
 
 HEADER04 = ("From Coq Require Import QArith ZArith List Bool PrimFloat.\n"
@@ -557,6 +555,8 @@ def adaptive_cases(cases, limit):
     import nitime.utils as ut
     out = []
     direct = 0
+    two_pass = 0
+    two_pass_max = 1 if limit <= 10 else 6
     for c in cases:
         if len(out) >= limit:
             break
@@ -564,28 +564,55 @@ def adaptive_cases(cases, limit):
             continue
         calls = [c.res["rec"].adapt[0]]
         w, nu, yk, eig, sides, passes = calls[0]
-        if len(eig) >= 3 and yk.shape[0] * yk.shape[1] <= 48 and direct < max(3, limit // 2):
-            for amp in (1e3, 1e6, 1e9):
+        if len(eig) >= 3 and yk.shape[0] * yk.shape[1] <= 60 and direct < max(3, limit // 2):
+            # amplified direct calls: 1 pass (weights = d_k(S0)) is cheap to replay; one small 2-pass call
+            # per run also replays ad_step
+            got = None
+            for amp in (1e12, 1e9, 1e6, 1e3):
                 with Rec() as r2:
                     try:
                         ut.adaptive_weights(yk * amp, eig, sides=sides)
                     except Exception:  # noqa
                         break
-                if r2.adapt and r2.adapt[0][5] <= 2:
-                    calls.append(r2.adapt[0])
-                    direct += 1
+                if not r2.adapt:
+                    break
+                p2 = r2.adapt[0][5]
+                if p2 == 1 and got is None:
+                    got = r2.adapt[0]
+                if p2 == 2 and two_pass < two_pass_max and yk.shape[0] * yk.shape[1] <= 30:
+                    calls.append(r2.adapt[0] + (True,))
+                    two_pass += 1
+                    break
+            if got is not None:
+                calls.append(got)
+                direct += 1
+        if two_pass < two_pass_max and len(eig) >= 3 and yk.shape[1] >= 8:
+            # a small direct call (3 tapers, 8 bins of the recorded spectra) amplified until the loop makes
+            # exactly 2 passes: the model's ad_step is then replayed exactly
+            ys, es = yk[:3, :8], eig[:3]
+            for e10 in range(0, 13):
+                with Rec() as r2:
+                    try:
+                        ut.adaptive_weights(ys * 10.0 ** e10, es, sides=sides)
+                    except Exception:  # noqa
+                        break
+                if r2.adapt and r2.adapt[0][5] == 2:
+                    calls.append(r2.adapt[0] + (True,))
+                    two_pass += 1
                     break
         for call in calls:
-            coq = ad_case_coq(call)
+            replay2 = len(call) > 6
+            call = call[:6]
+            coq = ad_case_coq(call, replay2)
             if coq is None:
                 continue
             w, nu, yk, eig, sides, passes = call
             a = Case(coq, {"adaptive_weights_call_of": {k: v for k, v in c.sc.items() if k != "data"}, "passes": passes,
                            "scenario": c.sc},
                      "adaptive_weights/K%d/%s/%s" % (len(eig), sides,
-                                                     "few-tapers" if len(eig) < 3 else ("replayed" if passes <= 2 else ("relation" if passes < 150 else "max_iter"))), True)
+                                                     "few-tapers" if len(eig) < 3 else ("replayed-%d-pass" % passes if (passes <= 1 or replay2) else ("relation" if passes < 150 else "max_iter"))), True)
             a.kind, a.res, a.sc, a.in_k = "ad", c.res, c.sc, True
-            a.cost = 0.03 * yk.shape[0] * yk.shape[1] * (20 if passes == 2 and len(eig) >= 3 else 1)
+            a.cost = 0.03 * yk.shape[0] * yk.shape[1] * (20 if replay2 else 1)
             a.is_aux = True
             out.append(a)
     return out
@@ -633,6 +660,8 @@ def run_k(ctx, cases, budget=18.0):
     with concurrent.futures.ThreadPoolExecutor(max_workers=core.NCPU) as ex:
         for job, r, idx in ex.map(one, jobs):
             ctx.obligation("K", "%s.v:corr" % job[1], r.ok, r.out)
+            if not r.ok:
+                ctx.extra.setdefault("K_failure_output", {})[job[1]] = r.out[-600:]
             ctx.extra.setdefault("K_shard_seconds", {})[job[1]] = round(r.secs, 1)
             for j in idx:
                 bad.add(id(job[5][j]))
